@@ -11,6 +11,7 @@ import (
 	"github.com/gordian-engine/gordian/gcrypto"
 	"github.com/gordian-engine/gordian/internal/zzverif/vk"
 	"github.com/gordian-engine/gordian/tm/tmcodec"
+	"github.com/gordian-engine/gordian/tm/tmcodec/tmjson"
 	"github.com/gordian-engine/gordian/tm/tmconsensus"
 	"pgregory.net/rapid"
 )
@@ -145,8 +146,98 @@ func (e *c14Env) voteSemantics(path string, p c14Proof, kind c14VoteKind, want, 
 // the oracle. pristine values are built a second time from the case data so
 // that an encoder modifying its argument is noticed too.
 func c14RoundTrip(c c14Case) *c14Failure {
+	f := c14RoundTripInner(c)
+	if f == nil {
+		// encodings handed out earlier (this case and the previous ones of this process)
+		// are values: later calls of the codec must not change them
+		if d := c14Retained.verify(); d != "" {
+			return c14F("encoder-output-changed-later", "%s", d)
+		}
+	}
+	return f
+}
+
+// c14Retain keeps the last encoder outputs together with a private copy.
+type c14Retain struct {
+	out, snap [][]byte
+	what      []string
+}
+
+var c14Retained c14Retain
+
+func (r *c14Retain) keep(what string, b []byte) {
+	const capN = 24
+	if len(r.out) >= capN {
+		r.out, r.snap, r.what = r.out[1:], r.snap[1:], r.what[1:]
+	}
+	r.out, r.snap, r.what = append(r.out, b), append(r.snap, bytes.Clone(b)), append(r.what, what)
+}
+
+func (r *c14Retain) verify() string {
+	for i := range r.out {
+		if !bytes.Equal(r.out[i], r.snap[i]) {
+			d := fmt.Sprintf("the %s encoding returned %d calls ago changed after later codec calls:\nwas %s\nnow %s", r.what[i], len(r.out)-i, r.snap[i], r.out[i])
+			r.out, r.snap, r.what = nil, nil, nil
+			return d
+		}
+	}
+	return ""
+}
+
+// c14RetainCodec records every encoding the codec hands out.
+type c14RetainCodec struct{ tmjson.MarshalCodec }
+
+func (m c14RetainCodec) MarshalHeader(h tmconsensus.Header) ([]byte, error) {
+	b, err := m.MarshalCodec.MarshalHeader(h)
+	if err == nil {
+		c14Retained.keep("header", b)
+	}
+	return b, err
+}
+
+func (m c14RetainCodec) MarshalProposedHeader(ph tmconsensus.ProposedHeader) ([]byte, error) {
+	b, err := m.MarshalCodec.MarshalProposedHeader(ph)
+	if err == nil {
+		c14Retained.keep("proposed header", b)
+	}
+	return b, err
+}
+
+func (m c14RetainCodec) MarshalCommittedHeader(ch tmconsensus.CommittedHeader) ([]byte, error) {
+	b, err := m.MarshalCodec.MarshalCommittedHeader(ch)
+	if err == nil {
+		c14Retained.keep("committed header", b)
+	}
+	return b, err
+}
+
+func (m c14RetainCodec) MarshalPrevoteProof(p tmconsensus.PrevoteSparseProof) ([]byte, error) {
+	b, err := m.MarshalCodec.MarshalPrevoteProof(p)
+	if err == nil {
+		c14Retained.keep("prevote proof", b)
+	}
+	return b, err
+}
+
+func (m c14RetainCodec) MarshalPrecommitProof(p tmconsensus.PrecommitSparseProof) ([]byte, error) {
+	b, err := m.MarshalCodec.MarshalPrecommitProof(p)
+	if err == nil {
+		c14Retained.keep("precommit proof", b)
+	}
+	return b, err
+}
+
+func (m c14RetainCodec) MarshalConsensusMessage(cm tmcodec.ConsensusMessage) ([]byte, error) {
+	b, err := m.MarshalCodec.MarshalConsensusMessage(cm)
+	if err == nil {
+		c14Retained.keep("consensus message", b)
+	}
+	return b, err
+}
+
+func c14RoundTripInner(c c14Case) *c14Failure {
 	e := c14GetEnv()
-	mc := e.mc
+	mc := c14RetainCodec{e.mc}
 	switch c14Mod(c.Kind, c14NKinds) {
 	case c14KHeader:
 		in, want := e.buildHeader(c.H), e.buildHeader(c.H)
